@@ -19,7 +19,12 @@ other `Props/Pipeline*.lean` files this one has no property id of its own; each 
   `follow_screen_is_batch_output` (aggregate statement without LIMIT and join, every format: the k-th delivered
   line either refreshes the screen with exactly the output of the batch program over the first k lines, or — WHERE or
   the admission rule rejects it — leaves everything as it is and the batch output over k lines is the one over k−1;
-  `shown_line_screen_is_batch_output`: the last screen after a shown line IS that batch output).
+  `shown_line_screen_is_batch_output`: the last screen after a shown line IS that batch output;
+  `follow_screens_are_batch_outputs`: every screen ever shown is the batch output over a prefix;
+  `quiescent_followText_is_run_over_complete_lines`: these are statements about `followText` on caught-up schedules;
+  `follow_table_failure_is_batch_table_failure_partial`: `execute_result` fails for the k-th line iff the batch program
+  over k lines fails, with the same error — given the updates succeed in both modes; `exScreenHyps`: all hypotheses
+  at once, by the kernel).
   Side conditions, exactly (`PlainLine`): the batch reader must read the delivered lines as the same texts — valid
   UTF-8 (follow mode does NOT end on an invalid line and reports nothing: the line's text is `from_utf8_lossy`, an
   external fact; batch mode ends with `FailReadFile`) and no `\r` before the `\n` (follow mode keeps it as content).
@@ -63,9 +68,10 @@ theorem statement_is_given_the_complete_lines (F : Facts) (defsText queryText : 
 /-- **… all of them, once the reader has caught up**: a schedule that ends with as many polls as there were bytes
 pending has delivered EVERY complete line of the followed content -/
 theorem quiescent_schedule_delivers_every_complete_line (head : Bool) (initial : List Nat) (ops : List FollowOp) (ks : List Nat)
+    (hi : FollowOp.interrupt ∉ ops)
     (hn : pending (Props.C10.reached initial head followCap (readerOps ops)) ≤ ks.length) :
     deliveredBy head initial (ops ++ ks.map .poll) = completeLines (followedContent head initial ops) :=
-  deliveredBy_quiescent head initial ops ks hn
+  deliveredBy_quiescent head initial ops ks hi hn
 
 /-- **Chunking and polls are irrelevant** (C10): two uninterrupted schedules over the same start-up content that append
 the same bytes — cut into appends anywhere, polled anyhow — and both end caught up give the same answer: the same
@@ -81,7 +87,7 @@ theorem chunking_and_polls_are_irrelevant (F : Facts) (defsText queryText : List
   have n₁ : FollowOp.interrupt ∉ ops₁ ++ ks₁.map FollowOp.poll := by simp [hi₁]
   have n₂ : FollowOp.interrupt ∉ ops₂ ++ ks₂.map FollowOp.poll := by simp [hi₂]
   unfold followText
-  rw [deliveredBy_quiescent head initial ops₁ ks₁ hn₁, deliveredBy_quiescent head initial ops₂ ks₂ hn₂,
+  rw [deliveredBy_quiescent head initial ops₁ ks₁ hi₁ hn₁, deliveredBy_quiescent head initial ops₂ ks₂ hi₂ hn₂,
     interruptPoint_none _ _ _ n₁, interruptPoint_none _ _ _ n₂]
   unfold followedContent
   rw [hsame]
@@ -136,7 +142,7 @@ theorem follow_select_prints_batch_output (F : Facts) (defsText queryText : List
       | nil => intro c hc; cases hc
       | cons l rest => intro c hc; cases hc
   | some t =>
-    rw [followStatement_plain F tables _ fromTable t hg ls none (fun l hl => (hplain l hl).2.1),
+    rw [followStatement_plain F tables _ fromTable t hg ls (fun l hl => (hplain l hl).2.1),
       runStatement_wire F tables _ fromTable t hg ls hplain]
     split
     · rw [runFollowAllT_select_eq_runBatchT F.eval _ s rfl rfl none]
@@ -176,7 +182,7 @@ theorem follow_screen_is_batch_output (F : Facts) (defsText queryText : List Cha
   have hwf := Props.Pipeline.lowered_aggregate_is_wellformed _ _ _ a fromTable file none hq
   -- both runs in closed form
   rw [followLines_eq F defsText queryText fmt _ none defs _ tables (.aggregate a) fromTable none hc hd hp hq ht rfl,
-    followStatement_plain F tables _ fromTable t hg _ none (fun x hx => (hplain x hx).2.1)] at hf
+    followStatement_plain F tables _ fromTable t hg _ (fun x hx => (hplain x hx).2.1)] at hf
   rw [runText_eq_runLowered F defsText queryText fmt single _ defs _ hc hd hp hq,
     runLowered_eq_opt F defs _ fmt single _ tables (.aggregate a) fromTable none ht rfl,
     runStatement_wire F tables _ fromTable t hg _ hplain] at hb
@@ -215,7 +221,7 @@ theorem follow_screen_is_batch_output (F : Facts) (defsText queryText : List Cha
         followAnswerOf F fmt (some (.ran (runFollowAllT F.eval { stmt := .aggregate a, table := t.info, join := none } none
           (pre.map (extractedLine F t.defn))))) := by
       rw [followLines_eq F defsText queryText fmt _ none defs _ tables (.aggregate a) fromTable none hc hd hp hq ht rfl,
-        followStatement_plain F tables _ fromTable t hg _ none (fun x hx => (hplain' x hx).2.1), if_pos hcov']
+        followStatement_plain F tables _ fromTable t hg _ (fun x hx => (hplain' x hx).2.1), if_pos hcov']
     have hpre_ok : ∀ (hcalls : (runFollowAllT F.eval { stmt := .aggregate a, table := t.info, join := none } none
           (pre.map (extractedLine F t.defn))).calls <+:
         (runFollowAllT F.eval { stmt := .aggregate a, table := t.info, join := none } none
@@ -308,24 +314,216 @@ theorem shown_line_screen_is_batch_output (F : Facts) (defsText queryText : List
   rw [h1 hs]
   exact (screens_last_after_clear w₀ ls).1
 
+/-- **Every screen is a batch output** (C11 at program level, all prefixes at once). Aggregate query text without join and
+LIMIT, any format; `ls` the delivered lines, all read as the same texts by the batch reader; follow mode over them ends
+`Ok` having written `w`; for every k from 1 to the number of lines the batch program over the file holding the first k
+lines ends `Ok` and prints `B k`; exact GROUP BY keys. Then nothing is written before the first clear, and EVERY screen
+follow mode has shown is `B k` for some k — the output of the batch program over the prefix of lines consumed when the
+screen was drawn. -/
+theorem follow_screens_are_batch_outputs (F : Facts) (defsText queryText : List Char) (fmt : Print.Format) (single : Bool)
+    (ls : List (List Nat)) (hplain : ∀ x ∈ ls, PlainLine x)
+    (defs : LStmt) (tables : List Table) (a : AggStmt) (fromTable : String) (file : Option String) (t : Table)
+    (hc : classesCover F defsText = true ∧ classesCover F queryText = true)
+    (hd : parseText (lexOracles F) (regexValidFn F) defsText = .stmt defs)
+    (hp : (createPatterns defs).all (fun re => ((Utf8.decode re).bind (regexValidOf F)).isSome) = true)
+    (hq : parseText (lexOracles F) (regexValidFn F) queryText = .stmt (.aggregate a fromTable file none))
+    (ht : addTables defs = some tables) (hg : getTable tables fromTable = some t) (hlim : a.limit = none)
+    (hex : KeysExact (groupKeysOf F.eval a (followEnvs t.info (ls.map (extractedLine F t.defn)))))
+    (B : Nat → List Print.Bytes)
+    (hb : ∀ k, 1 ≤ k → k ≤ ls.length → ∃ n, runText F defsText queryText fmt single [wire (ls.take k)] = .records none n (B k))
+    (w : List TermItem) (hf : followLines F defsText queryText fmt ls none = .ran none w) :
+    (screens w).head? = some [] ∧ ∀ s ∈ (screens w).tail, ∃ k, 1 ≤ k ∧ k ≤ ls.length ∧ s = B k := by
+  -- by induction on the prefix length, downwards from the whole list
+  have key : ∀ m, m ≤ ls.length → ∀ w, followLines F defsText queryText fmt (ls.take m) none = .ran none w →
+      (screens w).head? = some [] ∧ ∀ s ∈ (screens w).tail, ∃ k, 1 ≤ k ∧ k ≤ m ∧ s = B k := by
+    intro m
+    induction m with
+    | zero =>
+      intro _ w hw
+      rw [List.take_zero, followLines_eq F defsText queryText fmt _ none defs _ tables (.aggregate a) fromTable none hc hd hp hq ht rfl,
+        followStatement_plain F tables _ fromTable t hg _ (fun x hx => by cases hx)] at hw
+      simp only [List.all_nil, if_true, List.map_nil] at hw
+      obtain ⟨tf, htf, _, _, _, hfw⟩ := followAnswerOf_eq_ran F fmt _ none w hw
+      simp only [Option.some.injEq, FollowRun.ran.injEq] at htf
+      subst htf
+      have : (runFollowAllT F.eval { stmt := .aggregate a, table := t.info, join := none } none []).calls = [] := by
+        unfold runFollowAllT; split <;> rfl
+      rw [hfw, this]
+      exact ⟨rfl, fun s hs => by cases hs⟩
+    | succ m ih =>
+      intro hm w hw
+      have hlt : m < ls.length := hm
+      have htake : ls.take (m + 1) = ls.take m ++ [ls[m]] := by
+        rw [List.take_succ, List.getElem?_eq_getElem hlt]; rfl
+      rw [htake] at hw
+      obtain ⟨n, hbm⟩ := hb (m + 1) (by omega) hm
+      rw [htake] at hbm
+      have hpl : ∀ x ∈ ls.take m ++ [ls[m]], PlainLine x := by
+        intro x hx; rw [← htake] at hx; exact hplain x (List.mem_of_mem_take hx)
+      have hexm : KeysExact (groupKeysOf F.eval a (followEnvs t.info ((ls.take m ++ [ls[m]]).map (extractedLine F t.defn)))) := by
+        refine keysExact_subset ?_ hex
+        intro k hk
+        rw [← htake] at hk
+        simp only [groupKeysOf, followEnvs, asFile, envsOf, List.mem_filterMap, List.mem_map, List.mem_filter] at hk ⊢
+        obtain ⟨env, ⟨fl, ⟨⟨ln, ⟨x, hx, rfl⟩, rfl⟩, hadm⟩, rfl⟩, hkey⟩ := hk
+        exact ⟨_, ⟨_, ⟨⟨_, ⟨x, List.mem_of_mem_take hx, rfl⟩, rfl⟩, hadm⟩, rfl⟩, hkey⟩
+      obtain ⟨w₀, hw₀, hshown, hnot⟩ := follow_screen_is_batch_output F defsText queryText fmt single (ls.take m) ls[m] hpl
+        defs tables a fromTable file t hc hd hp hq ht hg hlim hexm w hw n (B (m + 1)) hbm
+      obtain ⟨ih1, ih2⟩ := ih (by omega) w₀ hw₀
+      by_cases hs : lineShown F.eval { stmt := .aggregate a, table := t.info, join := none } a (extractedLine F t.defn ls[m])
+      · rw [hshown hs, screens_append_clear]
+        constructor
+        · cases hsc : screens w₀ with
+          | nil => exact absurd hsc (screens_ne_nil _)
+          | cons x xs => rw [hsc] at ih1; simpa using ih1
+        · intro s hs'
+          cases hsc : screens w₀ with
+          | nil => exact absurd hsc (screens_ne_nil _)
+          | cons x xs =>
+            rw [hsc] at hs' ih2
+            simp only [List.cons_append, List.tail_cons, List.mem_append, List.mem_singleton] at hs' ih2
+            rcases hs' with h1 | h1
+            · obtain ⟨k, hk1, hk2, hk3⟩ := ih2 s h1
+              exact ⟨k, hk1, by omega, hk3⟩
+            · exact ⟨m + 1, by omega, by omega, h1⟩
+      · rw [(hnot hs).1]
+        refine ⟨ih1, fun s hs' => ?_⟩
+        obtain ⟨k, hk1, hk2, hk3⟩ := ih2 s hs'
+        exact ⟨k, hk1, by omega, hk3⟩
+  have := key ls.length (Nat.le_refl _) w (by rw [List.take_length]; exact hf)
+  exact this
+
+/-- **… over `followText`**: an uninterrupted schedule that ends caught up (any chunking, any polls) is the run over all
+complete lines of the followed content — so `follow_screen_is_batch_output`, `follow_screens_are_batch_outputs` and
+`follow_select_prints_batch_output` speak about `followText` with `ls` = those lines -/
+theorem quiescent_followText_is_run_over_complete_lines (F : Facts) (defsText queryText : List Char) (fmt : Print.Format)
+    (head : Bool) (initial : List Nat) (ops : List FollowOp) (ks : List Nat) (hi : FollowOp.interrupt ∉ ops)
+    (hn : pending (Props.C10.reached initial head followCap (readerOps ops)) ≤ ks.length) :
+    followText F defsText queryText fmt head initial (ops ++ ks.map .poll) =
+      followLines F defsText queryText fmt (completeLines (followedContent head initial ops)) none := by
+  have n₁ : FollowOp.interrupt ∉ ops ++ ks.map FollowOp.poll := by simp [hi]
+  unfold followText
+  rw [deliveredBy_quiescent head initial ops ks hi hn, interruptPoint_none _ _ _ n₁]
+
+/-- **Failure agreement at the k-th line — the result step** (C11 at program level; partial). The first k−1 delivered
+lines were fed without failure (follow mode over them ended `Ok`, having written `w₀`), the k-th line is admitted and
+`execute_update` accepts it in follow mode, and `execute_update` succeeds on all k lines in batch mode. Then
+`execute_result` fails for the k-th line in follow mode iff the final result of the batch program over the first k lines
+fails, with the SAME error — follow mode then has written `w₀` and nothing more, the batch program prints nothing.
+FULL statement wanted: "follow mode reports an error at line k iff the batch program over the first k lines does", with
+no hypothesis on the updates (`hupd`, `hB`). Missing: the UPDATE step — that `execute_update` fails on the follow-mode
+state iff it fails on the batch-mode state. The two states differ in published PERCENTILE values only (`Sim2`,
+`Lemmas/AggFollowSim.lean`); `cellStep_sim` gives the direction follow ⇒ batch for one cell, the lift through
+`updateAggregates` / `havingUpdates` and the converse direction are not proved. -/
+theorem follow_table_failure_is_batch_table_failure_partial (F : Facts) (defsText queryText : List Char) (fmt : Print.Format)
+    (single : Bool) (pre : List (List Nat)) (l : List Nat) (hplain : ∀ x ∈ pre ++ [l], PlainLine x)
+    (defs : LStmt) (tables : List Table) (a : AggStmt) (fromTable : String) (file : Option String) (t : Table)
+    (hc : classesCover F defsText = true ∧ classesCover F queryText = true)
+    (hd : parseText (lexOracles F) (regexValidFn F) defsText = .stmt defs)
+    (hp : (createPatterns defs).all (fun re => ((Utf8.decode re).bind (regexValidOf F)).isSome) = true)
+    (hq : parseText (lexOracles F) (regexValidFn F) queryText = .stmt (.aggregate a fromTable file none))
+    (ht : addTables defs = some tables) (hg : getTable tables fromTable = some t) (hlim : a.limit = none)
+    (hcov : (pre ++ [l]).all (factsCover F t.defn) = true)
+    (hadm : Sqlgrep.anyResult (extractedLine F t.defn l).row = true)
+    {sf sf1 sb : AggState} {ts0 : List RowOut}
+    (hF : followTables F.eval a (followEnvs t.info (pre.map (extractedLine F t.defn))) {} = .ok (sf, ts0))
+    (hupd : aggUpdateRow F.eval a sf (lineEnv t.info (extractedLine F t.defn l)) = .ok (sf1, true))
+    (hB : aggRun F.eval a (followEnvs t.info ((pre ++ [l]).map (extractedLine F t.defn))) {} = .ok sb)
+    (hex : KeysExact (groupKeysOf F.eval a (followEnvs t.info ((pre ++ [l]).map (extractedLine F t.defn)))))
+    (w₀ : List TermItem) (hw₀ : followLines F defsText queryText fmt pre none = .ran none w₀) (e : ErrKind) :
+    followLines F defsText queryText fmt (pre ++ [l]) none = .ran (some e) w₀ ↔
+      ∃ n, runText F defsText queryText fmt single [wire (pre ++ [l])] = .records (some e) n [] := by
+  have hplain' : ∀ x ∈ pre, PlainLine x := fun x hx => hplain x (by simp [hx])
+  have hcov' : pre.all (factsCover F t.defn) = true := by
+    rw [List.all_append, Bool.and_eq_true] at hcov; exact hcov.1
+  -- the run over the first k-1 lines: its calls are the tables shown, with all renderings shipped
+  rw [followLines_eq F defsText queryText fmt _ none defs _ tables (.aggregate a) fromTable none hc hd hp hq ht rfl,
+    followStatement_plain F tables _ fromTable t hg _ (fun x hx => (hplain' x hx).2.1), if_pos hcov'] at hw₀
+  obtain ⟨tp, htp, _, hrp, _, hwp⟩ := followAnswerOf_eq_ran F fmt _ none w₀ hw₀
+  simp only [Option.some.injEq, FollowRun.ran.injEq] at htp
+  subst htp
+  rw [runFollowAllT_agg F.eval { stmt := .aggregate a, table := t.info, join := none } a rfl rfl hlim
+    (pre.map (extractedLine F t.defn)) hF] at hrp hwp
+  simp only at hrp hwp
+  -- both runs over the k lines in closed form
+  rw [followLines_eq F defsText queryText fmt _ none defs _ tables (.aggregate a) fromTable none hc hd hp hq ht rfl,
+    followStatement_plain F tables _ fromTable t hg _ (fun x hx => (hplain x hx).2.1), if_pos hcov,
+    runText_eq_runLowered F defsText queryText fmt single _ defs _ hc hd hp hq,
+    runLowered_eq_opt F defs _ fmt single _ tables (.aggregate a) fromTable none ht rfl,
+    runStatement_wire F tables _ fromTable t hg _ hplain, if_pos hcov]
+  simp only [answerOfOpt, List.map_append, List.map_cons, List.map_nil]
+  rw [List.map_append, List.map_cons, List.map_nil] at hB hex
+  obtain ⟨hcalls, hstat⟩ := followT_agg_snoc_trace F.eval { stmt := .aggregate a, table := t.info, join := none } a rfl rfl hlim
+    (pre.map (extractedLine F t.defn)) (extractedLine F t.defn l) hadm hF
+  have hagree := followT_agg_step_status F.eval { stmt := .aggregate a, table := t.info, join := none } a rfl rfl hlim none
+    (pre.map (extractedLine F t.defn)) (extractedLine F t.defn l) hadm hF hupd hB hex
+  have hfnp := runFollowAllT_no_panic F.eval { stmt := .aggregate a, table := t.info, join := none } none
+    (pre.map (extractedLine F t.defn) ++ [extractedLine F t.defn l])
+  have hbnp := runBatchT_no_panic F.eval { stmt := .aggregate a, table := t.info, join := none } none
+    [readableFile (pre.map (extractedLine F t.defn) ++ [extractedLine F t.defn l])]
+  have easf : asFile (pre.map (extractedLine F t.defn) ++ [extractedLine F t.defn l]) =
+      readableFile (pre.map (extractedLine F t.defn) ++ [extractedLine F t.defn l]) := rfl
+  rw [easf] at hagree
+  simp only [endStatus, Prod.mk.injEq] at hagree hstat
+  -- when the follow run carries an error the step for the k-th line failed: nothing more was handed to the printer
+  have hfail_calls : ∀ k, (runFollowAllT F.eval { stmt := .aggregate a, table := t.info, join := none } none
+        (pre.map (extractedLine F t.defn) ++ [extractedLine F t.defn l])).out.error = some k →
+      (runFollowAllT F.eval { stmt := .aggregate a, table := t.info, join := none } none
+        (pre.map (extractedLine F t.defn) ++ [extractedLine F t.defn l])).calls =
+        ts0.map (fun r => { result := r, final := true }) := by
+    intro k hk
+    rw [hcalls]
+    cases hs : followStep F.eval a sf (lineEnv t.info (extractedLine F t.defn l)) with
+    | ok p =>
+      rw [hs] at hstat
+      rw [hstat.1] at hk
+      cases hk
+    | error k' => simp
+    | panic k' => simp
+    | oracleMissing k' => simp
+  constructor
+  · intro h
+    obtain ⟨tf, htf, hfs, _, hfe, _⟩ := followAnswerOf_eq_ran F fmt _ (some e) w₀ h
+    simp only [Option.some.injEq, FollowRun.ran.injEq] at htf
+    subst htf
+    have hbe : (runBatchT F.eval { stmt := .aggregate a, table := t.info, join := none } none
+        [readableFile (pre.map (extractedLine F t.defn) ++ [extractedLine F t.defn l])]).out.error = some e := by
+      rw [← hagree.1]; exact hfe.symm
+    have hbs : (runBatchT F.eval { stmt := .aggregate a, table := t.info, join := none } none
+        [readableFile (pre.map (extractedLine F t.defn) ++ [extractedLine F t.defn l])]).out.skipped = none := by
+      rw [← hagree.2.2]; exact hfs
+    have hbc := runBatchT_agg_failed_calls F.eval { stmt := .aggregate a, table := t.info, join := none } a rfl rfl none
+      [readableFile (pre.map (extractedLine F t.defn) ++ [extractedLine F t.defn l])] (by simp [hasFailed, hbe])
+    refine ⟨(runBatchT F.eval { stmt := .aggregate a, table := t.info, join := none } none
+      [readableFile (pre.map (extractedLine F t.defn) ++ [extractedLine F t.defn l])]).out.totalLines, ?_⟩
+    rw [answerOf_records F fmt single _ hbnp (runBatchT_aligned _ _ _ _) hbs (by rw [hbc]; rfl), hbe, hbc]
+    rfl
+  · rintro ⟨n, h⟩
+    obtain ⟨hbs, _, hbe, _, _⟩ := answerOf_eq_records F fmt single _ (some e) n [] h
+    have hfe : (runFollowAllT F.eval { stmt := .aggregate a, table := t.info, join := none } none
+        (pre.map (extractedLine F t.defn) ++ [extractedLine F t.defn l])).out.error = some e := by
+      rw [hagree.1]; exact hbe.symm
+    have hfs : (runFollowAllT F.eval { stmt := .aggregate a, table := t.info, join := none } none
+        (pre.map (extractedLine F t.defn) ++ [extractedLine F t.defn l])).out.skipped = none := by
+      rw [hagree.2.2]; exact hbs
+    have hc' := hfail_calls e hfe
+    rw [followAnswerOf_ran F fmt _ hfnp (runFollowAllT_aligned _ _ _ _) hfs (by rw [hc']; exact hrp), hfe, hc', hwp]
+
 /-! ### C19: an interrupt -/
 
-/-- **An interrupted follow run is the run over the lines delivered before the interrupt** (C19 at program level): the
-loop finds the flag cleared when it is handed the next line, so no further line is executed; the answer is the answer
-of the uninterrupted program over exactly the lines delivered before — unless the case lacks a fact about a LATER line
-(then the model answers `skip`; the real program never looks at that line) -/
+/-- **An interrupted follow run is the run over the lines delivered before the interrupt** (C19, on delivered lines):
+the loop finds the flag cleared when it is handed the next line, so no further line is executed (nor are facts about
+later lines needed); the answer is the answer of the uninterrupted program over exactly the first `k` delivered lines -/
 theorem interrupt_is_run_over_lines_delivered_before (F : Facts) (defsText queryText : List Char) (fmt : Print.Format)
     (dl : List (List Nat)) (k : Nat) :
-    followLines F defsText queryText fmt dl (some k) = .skip "line facts" ∨
     followLines F defsText queryText fmt dl (some k) = followLines F defsText queryText fmt (dl.take k) none := by
-  apply followLines_rel (fun x y => x = .skip "line facts" ∨ x = y) (fun _ => .inr rfl)
+  apply followLines_rel (fun x y => x = y) (fun _ => rfl)
   intro defs query tables stmt fromTable join _ _ _ _
   cases join with
-  | some j => right; rfl
+  | some j => rfl
   | none =>
     cases hg : getTable tables fromTable with
     | none =>
-      right
       unfold followStatement
       rw [hg]
       simp only [followNoTable, List.length_take]
@@ -340,16 +538,21 @@ theorem interrupt_is_run_over_lines_delivered_before (F : Facts) (defsText query
           | cons x rest => simp
     | some t =>
       rw [followStatement_defined F tables stmt fromTable dl _ t hg, followStatement_defined F tables stmt fromTable _ _ t hg]
-      cases hm : dl.mapM (mkFollowLine F t.defn) with
-      | none => left; rfl
+      simp only [handedLines]
+      cases hm : (dl.take k).mapM (mkFollowLine F t.defn) with
+      | none => rfl
       | some ls =>
-        right
-        rw [mapM_take _ dl ls k hm]
-        simp only [Option.map_some, runFollowAllT_stopAt]
+        simp only [Option.map_some]
+        rw [runFollowAllT_stopAt]
+        have hlen : ls.length ≤ k := by
+          have h1 := mapM_length _ _ _ hm
+          rw [h1, List.length_take]
+          exact Nat.min_le_left _ _
+        rw [List.take_of_length_le hlen]
 
 /-- **What an interrupted run has written is a prefix of what the uninterrupted run writes, and the interrupt adds no
-error** (C19 at program level): with `.ran e w` the answer when the flag is found cleared after `k` delivered lines and
-`.ran e' w'` the answer without interrupt, `w` is a prefix of `w'` — for an aggregate statement a prefix of the
+error** (C19, on delivered lines): with `.ran e w` the answer when the flag is found cleared after `k` delivered lines
+and `.ran e' w'` the answer without interrupt, `w` is a prefix of `w'` — for an aggregate statement a prefix of the
 sequence of screens, each complete — and either the interrupted run ended `Ok`, or it had already ended on its own
 with the very error (and output) of the uninterrupted run. -/
 theorem interrupted_output_is_a_prefix (F : Facts) (defsText queryText : List Char) (fmt : Print.Format)
@@ -395,15 +598,25 @@ theorem interrupted_output_is_a_prefix (F : Facts) (defsText queryText : List Ch
           · right; constructor <;> first | rfl | trivial
     | some t =>
       rw [followStatement_defined F tables stmt fromTable dl _ t hg] at ht1 ht2
+      simp only [handedLines] at ht1 ht2
       cases hm : dl.mapM (mkFollowLine F t.defn) with
-      | none => rw [hm] at ht1; cases ht1
+      | none => rw [hm] at ht2; cases ht2
       | some ls =>
-        rw [hm] at ht1 ht2
+        rw [hm] at ht2
+        rw [mapM_take _ dl ls k hm] at ht1
         simp only [Option.map_some, Option.some.injEq, FollowRun.ran.injEq] at ht1 ht2
         subst ht1; subst ht2
         rw [hw1, hw2, he1, he2]
-        refine ⟨termItems_prefix _ _ _ (runFollowAllT_calls_prefix F.eval _ k ls), ?_⟩
-        rw [runFollowAllT_stopAt]
+        have hst : runFollowAllT F.eval { stmt := stmt, table := t.info, join := none } (some k) (ls.take k) =
+            runFollowAllT F.eval { stmt := stmt, table := t.info, join := none } none (ls.take k) := by
+          rw [runFollowAllT_stopAt, List.take_take, Nat.min_self]
+        rw [hst]
+        have hpre : (runFollowAllT F.eval { stmt := stmt, table := t.info, join := none } none (ls.take k)).calls <+:
+            (runFollowAllT F.eval { stmt := stmt, table := t.info, join := none } none ls).calls := by
+          have := runFollowAllT_calls_prefix F.eval { stmt := stmt, table := t.info, join := none } k ls
+          rw [runFollowAllT_stopAt] at this
+          exact this
+        refine ⟨termItems_prefix _ _ _ hpre, ?_⟩
         cases hx : (runFollowAllT F.eval { stmt := stmt, table := t.info, join := none } none (ls.take k)).out.error with
         | none => left; rfl
         | some kind =>
@@ -412,6 +625,62 @@ theorem interrupted_output_is_a_prefix (F : Facts) (defsText queryText : List Ch
             (by simp [hasFailed, hx])
           rw [this] at hx ⊢
           exact ⟨hx.symm ▸ rfl, rfl⟩
+
+/-- **The interrupt of a schedule** (C19 over `followText`). `pre` is a schedule without interrupt; then the user
+interrupts; `rest` is whatever happens afterwards (appends, polls, further interrupts). What had been delivered stays
+delivered, the flag is found cleared after exactly the lines `pre` had delivered, and the answer of the program is the
+answer of the program over the schedule `pre` alone: no further input line is executed, everything written is what had
+been written when the interrupt came, no error is added. -/
+theorem interrupted_follow_run_is_the_run_so_far (F : Facts) (defsText queryText : List Char) (fmt : Print.Format) (head : Bool)
+    (initial : List Nat) (pre rest : List FollowOp) (hi : FollowOp.interrupt ∉ pre) :
+    deliveredBy head initial pre <+: deliveredBy head initial (pre ++ FollowOp.interrupt :: rest) ∧
+    interruptPoint head initial (pre ++ FollowOp.interrupt :: rest) = some (deliveredBy head initial pre).length ∧
+    followText F defsText queryText fmt head initial (pre ++ FollowOp.interrupt :: rest) =
+      followText F defsText queryText fmt head initial pre := by
+  have hp := deliveredBy_stable head initial pre (FollowOp.interrupt :: rest) hi
+  have hk := interruptPoint_split head initial pre rest hi
+  refine ⟨hp, hk, ?_⟩
+  unfold followText
+  rw [hk, interruptPoint_none head initial pre hi, interrupt_is_run_over_lines_delivered_before,
+    ← List.prefix_iff_eq_take.1 hp]
+
+/-- **… against the uninterrupted schedule** (C19 over `followText`): with `.ran e w` the answer of the interrupted
+schedule `pre ++ interrupt :: rest` and `.ran e' w'` the answer of the same schedule without the interrupt,
+`pre ++ rest`: `w` is a prefix of `w'` (for an aggregate statement: a prefix of its sequence of complete screens) and the
+interrupted run ended `Ok` — or had already ended on its own, with the error and the output of the uninterrupted run. -/
+theorem interrupted_follow_output_is_a_prefix (F : Facts) (defsText queryText : List Char) (fmt : Print.Format) (head : Bool)
+    (initial : List Nat) (pre rest : List FollowOp) (hi : FollowOp.interrupt ∉ pre) (hr : FollowOp.interrupt ∉ rest)
+    (e e' : Option ErrKind) (w w' : List TermItem)
+    (h1 : followText F defsText queryText fmt head initial (pre ++ FollowOp.interrupt :: rest) = .ran e w)
+    (h2 : followText F defsText queryText fmt head initial (pre ++ rest) = .ran e' w') :
+    w <+: w' ∧ (e = none ∨ (e = e' ∧ w = w')) := by
+  rw [(interrupted_follow_run_is_the_run_so_far F defsText queryText fmt head initial pre rest hi).2.2] at h1
+  have hp := deliveredBy_stable head initial pre rest hi
+  have hn : FollowOp.interrupt ∉ pre ++ rest := by simp [hi, hr]
+  unfold followText at h1 h2
+  rw [interruptPoint_none head initial pre hi] at h1
+  rw [interruptPoint_none head initial _ hn] at h2
+  rw [List.prefix_iff_eq_take.1 hp, ← interrupt_is_run_over_lines_delivered_before] at h1
+  exact interrupted_output_is_a_prefix F defsText queryText fmt _ _ e e' w w' h1 h2
+
+/-- **An interrupted follow run returns** (C19 "stops promptly", in the model; /repo caa9e23 = the repair of D70). After
+the interrupt the iterator looks at the flag whenever it finds no complete line: if the schedule goes on with more polls
+than there were bytes pending — the file may stay idle for ever —, `next()` has returned `None`, `execute` has returned
+`Ok`, and the answer is the one of `interrupted_follow_run_is_the_run_so_far`. (The schedule model has no time: "promptly"
+is "within the polls that drain what is pending, plus one"; before caa9e23 the iterator never looked at the flag and
+`iteratorEnded` would be false on every idle continuation.) -/
+theorem interrupted_follow_run_returns (F : Facts) (defsText queryText : List Char) (fmt : Print.Format) (head : Bool)
+    (initial : List Nat) (pre : List FollowOp) (ks : List Nat) (hi : FollowOp.interrupt ∉ pre)
+    (hn : pending (Props.C10.reached initial head followCap (readerOps pre)) < ks.length) :
+    iteratorEnded head initial (pre ++ FollowOp.interrupt :: ks.map FollowOp.poll) = true ∧
+    interruptedRunReturned head initial (pre ++ FollowOp.interrupt :: ks.map FollowOp.poll) = true ∧
+    followText F defsText queryText fmt head initial (pre ++ FollowOp.interrupt :: ks.map FollowOp.poll) =
+      followText F defsText queryText fmt head initial pre := by
+  have h := iteratorEnded_after_interrupt head initial pre ks hi hn
+  refine ⟨h, ?_, (interrupted_follow_run_is_the_run_so_far F defsText queryText fmt head initial pre _ hi).2.2⟩
+  unfold interruptedRunReturned
+  rw [h]
+  rfl
 
 /-! ### C06: lines that yield no row -/
 
@@ -430,6 +699,7 @@ theorem follow_noise_lines_invisible (F : Facts) (defsText queryText : List Char
   | some j => rfl
   | none =>
     rw [followStatement_defined F tables stmt fromTable _ _ t ht, followStatement_defined F tables stmt fromTable _ _ t ht]
+    simp only [handedLines]
     rcases mapM_noise F t.defn a ns b hnoise with ⟨h1, h2⟩ | ⟨x, y, h1, h2, h3⟩
     · rw [h1, h2]
     · rw [h1, h2]
@@ -534,6 +804,46 @@ example : ∀ l ∈ [strBytes "a;1", strBytes "zzz", strBytes "b;2"], PlainLine 
   intro l hl
   simp only [List.mem_cons, List.mem_nil_iff, or_false] at hl
   rcases hl with rfl | rfl | rfl <;> exact ⟨by decide +kernel, by decide +kernel, by decide +kernel⟩
+
+/-- ALL hypotheses of `follow_screen_is_batch_output` (and, with `pre ++ [l]` for `ls`, of `follow_screens_are_batch_outputs`
+for its last prefix) as one decidable check: both texts lower, the patterns are valid by the facts, the statement is an
+aggregate statement without join and LIMIT, the FROM table is defined, the lines are plain, the GROUP BY keys seen are
+exact (every key value NULL, INT, TEXT, BOOLEAN …: `keysExact_of_simple`), follow mode over the lines ends `Ok`, the
+batch program over the file holding them ends `Ok` -/
+def exScreenHyps (F : Facts) (defsText queryText : List Char) (fmt : Print.Format) (single : Bool) (pre : List (List Nat))
+    (l : List Nat) : Bool :=
+  classesCover F defsText && classesCover F queryText && decide (∀ x ∈ pre ++ [l], PlainLine x) &&
+  match parseText (lexOracles F) (regexValidFn F) defsText, parseText (lexOracles F) (regexValidFn F) queryText with
+  | .stmt defs, .stmt (.aggregate a fromTable _ none) =>
+    (createPatterns defs).all (fun re => ((Utf8.decode re).bind (regexValidOf F)).isSome) && a.limit.isNone &&
+    match addTables defs with
+    | some tables =>
+      match getTable tables fromTable with
+      | some t =>
+        (groupKeysOf F.eval a (followEnvs t.info ((pre ++ [l]).map (extractedLine F t.defn)))).all (fun k => k.all Spec.Agg.simpleValue) &&
+        (match followLines F defsText queryText fmt (pre ++ [l]) none with
+          | .ran none _ => true
+          | _ => false) &&
+        (match runText F defsText queryText fmt single [wire (pre ++ [l])] with
+          | .records none _ _ => true
+          | _ => false)
+      | none => false
+    | none => false
+  | _, _ => false
+
+/-- … discharged by the kernel on a GROUP BY statement with HAVING in the CSV format, two lines delivered, a third (shown)
+arriving; and what the theorem then says, evaluated: the screens written for two lines, a clear, the batch output over
+three lines -/
+example : exScreenHyps exFacts exDefs "select k, count(*), max(v) from t group by k having count(*) > 0".toList (.csv [59]) false
+    [strBytes "a;1", strBytes "zzz"] (strBytes "b;2") = true := by decide +kernel
+example :
+    ranOf (followLines exFacts exDefs "select k, count(*), max(v) from t group by k having count(*) > 0".toList (.csv [59])
+      [strBytes "a;1", strBytes "zzz", strBytes "b;2"] none) =
+      some (none, [.clear, .line (strBytes "k;count1;max2"), .line (strBytes "'a';1;1"),
+                   .clear, .line (strBytes "k;count1;max2"), .line (strBytes "'a';1;1"), .line (strBytes "'b';1;2")]) ∧
+    Props.Pipeline.recordsOf (runText exFacts exDefs "select k, count(*), max(v) from t group by k having count(*) > 0".toList (.csv [59]) false
+      [wire [strBytes "a;1", strBytes "zzz", strBytes "b;2"]]) =
+      some (none, 3, [strBytes "k;count1;max2", strBytes "'a';1;1", strBytes "'b';1;2"]) := by decide +kernel
 
 /-- a noise line among the delivered lines (hypothesis of `follow_noise_lines_invisible`), and the two answers -/
 example : ((queriedTable exFacts exDefs "select k from t".toList).map (fun t => noRowFollow exFacts t.defn (strBytes "zzz"))) = some true := by
